@@ -613,7 +613,7 @@ func translateExt(fset *token.FileSet, load fileLoader, sp spec, known map[strin
 	x := &xtr{fset: fset, sp: sp, env: map[string]*xty{}, structs: map[string]*xstruct{}, consts: map[string]xval{},
 		shared: map[string]bool{}, loops: map[ast.Stmt]*loopInfo{}, ptrParams: map[string]bool{}, params: map[string]bool{}, prims: map[string]bool{},
 		aliases: map[string]*xty{}, known: known, uses: map[string]useSpec{}, opaque: map[string]string{},
-		ordParams: map[string]bool{}, methods: map[string]*xmethod{}, capVars: map[string]string{}, fnBody: fd.Body}
+		ordParams: map[string]bool{}, methods: map[string]*xmethod{}, capVars: map[string]string{}, fnBody: fd.Body, asserts: map[string]string{}}
 	for _, cv := range sp.CapVars {
 		nt := strings.SplitN(cv, "=", 2)
 		if len(nt) != 2 {
@@ -668,6 +668,18 @@ func translateExt(fset *token.FileSet, load fileLoader, sp spec, known map[strin
 	}
 	for _, u := range sp.Uses {
 		x.uses[u.Go] = u
+	}
+	var assertBinders []string
+	for _, a := range sp.Asserts {
+		nt := strings.SplitN(a, "=", 2)
+		var ot []string
+		if len(nt) == 2 {
+			ot = strings.SplitN(nt[1], ":", 2)
+		}
+		if len(ot) != 2 {
+			fail(token.Position{Filename: sp.File}, "spec.Asserts entry %q", a)
+		}
+		x.asserts[ot[1]] = nt[0] + "=" + ot[0]
 	}
 	x.fname = sp.Func
 	if sp.Recv != "" {
@@ -762,6 +774,16 @@ func translateExt(fset *token.FileSet, load fileLoader, sp spec, known map[strin
 	for _, mn := range methodNames {
 		primBinders = append(primBinders, fmt.Sprintf("(%s : %s)", mn, x.env[mn].lean()))
 	}
+	for goTy, v := range x.asserts {
+		nv := strings.SplitN(v, "=", 2)
+		te, err := parser.ParseExpr(goTy)
+		if err != nil {
+			x.bad(fd, "spec.Asserts type %q: %v", goTy, err)
+		}
+		assertBinders = append(assertBinders, fmt.Sprintf("(%s : %s → Option %s)", nv[0], nv[1], parenT(x.goTy(te).lean())))
+	}
+	sort.Strings(assertBinders)
+	primBinders = append(primBinders, assertBinders...)
 	for _, p := range sp.Prims {
 		if p == "growCap" { // the capacity `append` chooses when it has to grow: (old capacity, new length) ↦ new capacity
 			x.env["growCap"] = &xty{k: kFunc, params: []*xty{tInt, tInt}, results: []*xty{tInt}}
@@ -786,6 +808,19 @@ func translateExt(fset *token.FileSet, load fileLoader, sp spec, known map[strin
 		ty := x.goTy(te)
 		if ty.k != kFunc {
 			x.bad(fd, "spec.Prims entry %q is not a function type", p)
+		}
+		if rm := strings.SplitN(nt[0], ".", 2); len(rm) == 2 {
+			// "Recv.Method=func(..) R": a method of a struct of the spec that stays abstract; called as `v.Method(..)`
+			if _, ok := x.structs[rm[0]]; !ok || len(ty.results) != 1 || ty.results[0].k == kErr {
+				x.bad(fd, "spec.Prims entry %q: not a one-result method of a struct of the spec", p)
+			}
+			if x.known == nil {
+				x.known = map[string]*xty{}
+			}
+			x.known[nt[0]] = ty
+			full := &xty{k: kFunc, params: append([]*xty{x.structTy(rm[0])}, ty.params...), results: ty.results}
+			primBinders = append(primBinders, fmt.Sprintf("(%s_%s : %s)", rm[0], rm[1], full.lean()))
+			continue
 		}
 		x.declare(fd, nt[0], ty)
 		x.poly = x.poly || ty.mentionsAny()
